@@ -66,7 +66,12 @@ RULE = ("One case = one fresh temporary repository written through the update_* 
         "density/temperature/energy argument, both sides of every axis up to one decade outside; then a sibling key (other charge "
         "/ transition / metastable, table x drawn factor) requested from the SAME provider, a second object for the same key "
         "(keyword arguments, other transition spelling) evaluated through .evaluate() with int / numpy.float64 arguments, and the "
-        "first object again at the very end: both must reproduce the first pass bit for bit. Provider built with keywords / "
+        "first object again at the very end: both must reproduce the first pass bit for bit. INTERFERENCE (2 of 3 cases): a second "
+        "provider B on another data_path (same accessor and key, other drawn table with other grid sizes, other E/N flags) is built "
+        "and used on its whole grid before or after the first evaluation of A, a third provider C on A's data_path with E and N "
+        "flipped is built and used, A and B are evaluated alternately (bit-equal to their own first pass), each of A, B, C must "
+        "still follow the range policy of ITS provider and A.raw_data is unchanged; wl: a second provider with other wavelengths "
+        "for the same key; missing: a provider that HAS the key (other data_path, N flipped) is used before / after. Provider built with keywords / "
         "positionally / with default-valued flags omitted. Non-trivial = data present, every axis >= 2 points and a non-constant "
         "table (tab/beam/beamcx); missing/wl cases: a sibling key or a stored wavelength exists (the lookup can go wrong).")
 ASSUMPTIONS = ["update_* / get_* store and return the numbers bit for bit (verified by C06)",
@@ -114,7 +119,7 @@ BCX_AXES = (("eb", "qeb"), ("ti", "qti"), ("ni", "qni"), ("z", "qz"), ("b", "qb"
 NONPOS = [0.0, -0.0, -1.0, -1e-300, -1e300, -37.5]
 
 
-_counts = {"repeat_values": 0, "interior_cells": 0, "grid_points": 0, "interior_points": 0, "nonpositive_args": 0, "out_of_range_raises": 0, "extrapolated_values": 0,
+_counts = {"interference_values": 0, "repeat_values": 0, "interior_cells": 0, "grid_points": 0, "interior_points": 0, "nonpositive_args": 0, "out_of_range_raises": 0, "extrapolated_values": 0,
            "null_rate_values": 0, "runtimeerror_expected": 0,
            "grid_relerr": {"<=1e-14": 0, "<=1e-12": 0, "<=1e-10": 0, "<=1e-9": 0, ">1e-9": 0},
            "extrapolated_log10_abs": {"<=50": 0, "<=150": 0, "<=300": 0, "underflow_to_0": 0}}
@@ -157,6 +162,9 @@ REQUIRED_LABELS = \
     ["matrix:entry:" + e for e in ("data_path", "default-path", "PhotonToJ.to", "PhotonToJ.inv", "evaluate", "__call__")] + \
     ["matrix:interior:clamped-to-zero", "beamcx:interior:clamped-to-zero", "matrix:arg:exactly-1.0", "tab:arg:exactly-1.0"] + \
     [sub + ":reuse:repeated" for sub in ("matrix", "tab", "beam", "beamcx")] + \
+    [sub + ":interference" for sub in ("matrix", "tab", "beam", "beamcx", "wl", "missing")] + \
+    [sub + ":interference:" + x for sub in ("matrix", "tab", "beam", "beamcx") for x in ("B-used-before-A", "B-used-after-A", "providers-same-path-other-flags")] + \
+    ["matrix:interference:raw_data-unchanged", "tab:interference:raw_data-unchanged"] + \
     ["tab:reuse:provider-second-key:transition", "tab:reuse:provider-second-key:charge", "beam:reuse:provider-second-key:metastable",
      "beamcx:reuse:provider-second-key:transition"] + \
     ["tab:adform:%d" % i for i in range(3)] + ["missing:variant:default-path", "missing:variant:sibling", "missing:variant:empty"] + \
@@ -412,6 +420,107 @@ def _points(ctx, what, rate, axes, guarded, case, ext, ref=None, ref_scale=1.0, 
     return multi
 
 
+# ================================================================================================ interference between objects
+def _raw_copy(rate):
+    raw = getattr(rate, "raw_data", None)
+    if not isinstance(raw, dict):
+        return None
+    return {k: np.array(v, dtype=np.float64, copy=True) for k, v in raw.items()}
+
+
+class _Closer:
+    def __init__(self, path):
+        self.path = path
+
+    def close(self):
+        shutil.rmtree(self.path, ignore_errors=True)
+
+
+class _Interf:
+    """INTERFERENCE: a second provider B (other data_path, other table / grid sizes, other flags) and a third provider C (A's
+    data_path, all flags that matter flipped) are alive together with the object under test A.
+
+    build():     B is created and used on its whole grid (oracle: B's own table), either before A's first evaluation
+                 (case B.first) or after it;
+    alternate(): A and B are evaluated alternately, every value must equal the object's own first pass bit for bit; C is
+                 built and used; then each object must still follow the range policy of ITS provider, A's raw_data (where
+                 the class exposes it) must be unchanged."""
+
+    def __init__(self, ctx, what, case, fl, write, get, grid):
+        self.ctx, self.what, self.case, self.fl = ctx, what, case, fl
+        self.write, self.get, self.grid = write, get, grid
+        self.B = case.get("B")
+        self.path = None
+        self.built = False
+
+    def build(self):
+        if not self.B or self.built:
+            return
+        ctx, B, what = self.ctx, self.B, self.what
+        self.built = True
+        self.path = tempfile.mkdtemp(prefix="vf_c07_repoB_")
+        self.flB = [B["flags"][0], B["flags"][1], self.fl[2]]
+        self.write(self.path, B)
+        self.ad = _ad(self.path, self.flB, self.case.get("adform", 0))
+        with ctx.cut(what + ":interference:construct-B"):
+            self.rate = self.get(self.ad)
+        self.pts, want, self.axes = self.grid(B)
+        self.first = [_call(ctx, what + ":interference:grid-B", self.rate, p) for p in self.pts]
+        ctx.close(np.array(self.first) / np.array(want), np.ones(len(want)), what + ":interference:grid-B", rtol=1e-9,
+                  info="(second provider on another data_path with another table while the first object is alive)")
+        ctx.label("interference:B-used-before-A" if B.get("first") else "interference:B-used-after-A")
+
+    def _policy(self, rate, axes, ext, who):
+        ctx, what = self.ctx, self.what
+        for k, a in enumerate(axes):
+            if len(a) >= 2:
+                p = [x[0] for x in axes]
+                p[k] = a[-1] * 2.0
+                if ext:
+                    v = _call(ctx, what + ":interference:extrapolated", rate, p)
+                    ctx.check(math.isfinite(v) and v >= 0.0, what + ":interference:extrapolated", lambda: "%s: value %r at %r" % (who, v, p))
+                else:
+                    ctx.raises((Exception,), what + ":interference:out-of-range(%s)" % who, rate, *p)
+                return
+
+    def alternate(self, rateA, ptsA, firstA, axesA, rawA, getA, pathA, adA):
+        if not self.built:
+            return
+        ctx, what = self.ctx, self.what
+        for i in range(max(len(ptsA), len(self.pts))):
+            ia, ib = i % len(ptsA), i % len(self.pts)
+            v = _call(ctx, what + ":interference", rateA, ptsA[ia])
+            ctx.check(v == firstA[ia], what + ":interference", lambda: "A(%r) = %r after B was used, first pass gave %r" % (ptsA[ia], v, firstA[ia]))
+            w = _call(ctx, what + ":interference", self.rate, self.pts[ib])
+            ctx.check(w == self.first[ib], what + ":interference", lambda: "B(%r) = %r after A was used, first pass gave %r" % (self.pts[ib], w, self.first[ib]))
+        # provider C: A's repository, flipped permit_extrapolation / missing_rates_return_null
+        flC = [1 - self.fl[0], 1 - self.fl[1], self.fl[2]]
+        adC = _ad(pathA, flC, 0)
+        with ctx.cut(what + ":interference:construct-C"):
+            rateC = getA(adC)
+        v = _call(ctx, what + ":interference", rateC, ptsA[0])
+        ctx.check(v == firstA[0], what + ":interference", lambda: "provider C (same data_path, other flags): %r, A gave %r" % (v, firstA[0]))
+        self._policy(rateC, axesA, bool(flC[0]), "C")
+        self._policy(rateA, axesA, bool(self.fl[0]), "A")
+        with ctx.cut(what + ":interference:construct-A-again"):
+            rateA2 = getA(adA)                  # provider A asked again after B and C were configured differently
+        self._policy(rateA2, axesA, bool(self.fl[0]), "A, new object from provider A")
+        self._policy(self.rate, self.axes, bool(self.flB[0]), "B")
+        v = _call(ctx, what + ":interference", rateA, ptsA[-1])
+        ctx.check(v == firstA[-1], what + ":interference", lambda: "A(%r) = %r at the end, first pass gave %r" % (ptsA[-1], v, firstA[-1]))
+        if rawA is not None:
+            now = _raw_copy(rateA)
+            same = now is not None and sorted(now) == sorted(rawA) and all(np.array_equal(now[k], rawA[k]) for k in rawA)
+            ctx.check(same, what + ":interference:raw_data", "raw_data of the first object changed after other objects were built / used")
+            ctx.label("interference:raw_data-unchanged")
+        _counts["interference_values"] += 2 * max(len(ptsA), len(self.pts)) + 5
+        ctx.label("interference", "interference:providers-same-path-other-flags")
+
+    def close(self):
+        if self.path:
+            shutil.rmtree(self.path, ignore_errors=True)
+
+
 # ================================================================================================ tab: log-log table families
 def _tab_write(ctx, path, acc, case, table, species, donor):
     d = {"ne": case["axes"][0], "te": case["axes"][1]}
@@ -497,6 +606,7 @@ def run_tab(case, ctx):
     for k in single:
         ctx.label("single-axis:%s:%d" % (acc, k))
     path = tempfile.mkdtemp(prefix="vf_c07_repo_")
+    closers = []
     try:
         # --- repository content: true data under the elements; decoys under every isotope symbol involved
         pairs = {(n, d) for n in (name, _elem(name).name) for d in (donor_name, _elem(donor_name).name)}
@@ -530,6 +640,27 @@ def run_tab(case, ctx):
         with ctx.cut(what + ":construct"):
             rate = _tab_get(ad, acc, case, name, donor_name)
         conv = HC / (lam * 1e-9) if acc in PHOTON else 1.0
+        rawA = _raw_copy(rate)
+        wq = _wl_charge(acc, case["q"])
+
+        def _writeB(pathB, B):
+            cB = dict(case, axes=B["axes"])
+            _tab_write(ctx, pathB, acc, cB, B["table"], _elem(name), _elem(donor_name))
+            if acc in PHOTON:
+                wB = _WL()
+                _wl_sibling(wB, dict(case, wl_el=None if case.get("wl_el") is None else case["wl_el"] + 1.0,
+                                     wl_iso=None if case.get("wl_iso") is None else case["wl_iso"] + 1.0), name, wq, case["tr"])
+                wB.write(ctx, pathB)
+                interf.lamB = wB.expect(name, wq, case["tr"], fl[2])
+
+        def _gridB(B):
+            axB = [list(map(float, a)) for a in B["axes"]]
+            tB = np.array(B["table"], dtype=np.float64) * (HC / (interf.lamB * 1e-9) if acc in PHOTON else 1.0)
+            return ([[axB[k][i] for k, i in enumerate(idx)] for idx in np.ndindex(*tB.shape)], tB.ravel().tolist(), axB)
+        interf = _Interf(ctx, what, case, fl, _writeB, lambda adx: _tab_get(adx, acc, case, name, donor_name), _gridB)
+        closers.append(interf)
+        if interf.B and interf.B.get("first"):
+            interf.build()
         # --- every grid point
         want = table * conv
         got = np.empty_like(want)
@@ -555,6 +686,8 @@ def run_tab(case, ctx):
                 ctx.label("isotope==element")
         multi = _points(ctx, what, rate, axes, [True] * len(axes), case, bool(fl[0]), ref, scale)
         pts = [[axes[k][i] for k, i in enumerate(idx)] for idx in np.ndindex(*want.shape)]
+        interf.build()
+        interf.alternate(rate, pts, got.ravel().tolist(), axes, rawA, lambda adx: _tab_get(adx, acc, case, name, donor_name), path, ad)
         # --- a sibling key (other charge / transition) served by the same provider instance
         if c2 is not None:
             lam2 = wl.expect(name, _wl_charge(acc, c2["q"]), c2["tr"], fl[2]) if acc in PHOTON else None
@@ -572,6 +705,8 @@ def run_tab(case, ctx):
         ctx.nt(multi and float(table.max()) > float(table.min()))
     finally:
         shutil.rmtree(path, ignore_errors=True)
+        for c in closers:
+            c.close()
 
 
 # ================================================================================================ beam stopping / population / emission
@@ -618,6 +753,7 @@ def run_beam(case, ctx):
         if len(a) == 1:
             ctx.label("single-axis:%s:%s" % (acc, "ent"[k]))
     path = tempfile.mkdtemp(prefix="vf_c07_repo_")
+    closers = []
     try:
         decoy = case.get("decoy")
         true_key = (_sym(_elem(bname)), _sym(_elem(tname)))
@@ -647,6 +783,24 @@ def run_beam(case, ctx):
         with ctx.cut(acc + ":construct"):
             rate = _beam_get(ad, acc, case, bname, tname)
         conv = HC / (lam * 1e-9) if acc in PHOTON else 1.0
+
+        def _writeB(pathB, B):
+            _beam_write(ctx, pathB, acc, dict(case, e=B["e"], n=B["n"], t=B["t"], sref=B["sref"]), B["sen"], B["st"], _elem(bname), _elem(tname))
+            if acc in PHOTON:
+                wB = _WL()
+                _wl_sibling(wB, case, bname, 0, case["tr"])
+                wB.write(ctx, pathB)
+                interf.lamB = wB.expect(bname, 0, case["tr"], fl[2])
+
+        def _gridB(B):
+            axB = [list(map(float, B[k])) for k in ("e", "n", "t")]
+            wB_ = (np.array(B["sen"], dtype=np.float64)[:, :, None] * np.array(B["st"], dtype=np.float64)[None, None, :] / float(B["sref"])
+                   * (HC / (interf.lamB * 1e-9) if acc in PHOTON else 1.0))
+            return ([[axB[k][i] for k, i in enumerate(idx)] for idx in np.ndindex(*wB_.shape)], wB_.ravel().tolist(), axB)
+        interf = _Interf(ctx, acc, case, fl, _writeB, lambda adx: _beam_get(adx, acc, case, bname, tname), _gridB)
+        closers.append(interf)
+        if interf.B and interf.B.get("first"):
+            interf.build()
         want = sen[:, :, None] * st_[None, None, :] / sref * conv          # documented: s = sen * st / sref
         got = np.empty_like(want)
         for idx in np.ndindex(*want.shape):
@@ -669,6 +823,8 @@ def run_beam(case, ctx):
                 ctx.label("isotope==element")
         multi = _points(ctx, acc, rate, axes, [True] * 3, case, bool(fl[0]), ref, scale)
         pts = [[axes[k][i] for k, i in enumerate(idx)] for idx in np.ndindex(*want.shape)]
+        interf.build()
+        interf.alternate(rate, pts, got.ravel().tolist(), axes, None, lambda adx: _beam_get(adx, acc, case, bname, tname), path, ad)
         if c2 is not None:
             lam2 = wl.expect(bname, 0, c2["tr"], fl[2]) if acc in PHOTON else None
             with ctx.cut(acc + ":construct-sibling"):
@@ -684,6 +840,8 @@ def run_beam(case, ctx):
         ctx.nt(multi and (float(sen.max()) > float(sen.min()) or float(st_.max()) > float(st_.min())))
     finally:
         shutil.rmtree(path, ignore_errors=True)
+        for c in closers:
+            c.close()
 
 
 # ================================================================================================ beam CX
@@ -702,6 +860,7 @@ def run_beamcx(case, ctx):
     iso = _is_iso(dname) or _is_iso(rname)
     ctx.label("acc:" + acc, "cov:%s:%s:present" % (acc, _flag_label(fl)), "req:" + ("isotope" if iso else "element"))
     path = tempfile.mkdtemp(prefix="vf_c07_repo_")
+    closers = []
     try:
         decoy = case.get("decoy")
         true_key = (_sym(_elem(dname)), _sym(_elem(rname)))
@@ -747,6 +906,36 @@ def run_beamcx(case, ctx):
                 ctx.label("isotope==element")
         conv = HC / (lam * 1e-9)
         nt = False
+        ms0 = str(min(int(m) for m in case["ms"]))
+
+        def _lowest(adx):
+            return min(adx.beam_cx_pec(SP[dname], SP[rname], rq, _tr(tri)), key=lambda r: int(r.donor_metastable))
+
+        def _writeB(pathB, B):
+            R.update_beam_cx_rates({_elem(dname): {_elem(rname): {rq: {_tr(tri): {int(ms0): _bcx_rate(B["d"])}}}}}, pathB)
+            wB = _WL()
+            _wl_sibling(wB, case, rname, rq - 1, tri)
+            wB.write(ctx, pathB)
+            interf.lamB = wB.expect(rname, rq - 1, tri, fl[2])
+
+        def _gridB(B):
+            d = B["d"]
+            axB = [list(map(float, d[x])) for x, _ in BCX_AXES]
+            pts, want = [], []
+            for k in range(5):
+                for i in range(len(axB[k])):
+                    idx = [0] * 5
+                    idx[k] = i
+                    w = d["qeb"][idx[0]] * (HC / (interf.lamB * 1e-9))
+                    for m, (_, q) in enumerate(BCX_AXES[1:], start=1):
+                        w = w * (d[q][idx[m]] / float(d["qref"]))
+                    pts.append([axB[m][j] for m, j in enumerate(idx)])
+                    want.append(w)
+            return pts, want, axB
+        interf = _Interf(ctx, acc, case, fl, _writeB, _lowest, _gridB)
+        closers.append(interf)
+        if interf.B and interf.B.get("first"):
+            interf.build()
         with ctx.cut(acc + ":construct-again"):
             again = {int(r.donor_metastable): r for r in
                      ad.beam_cx_pec(donor_ion=SP[dname], receiver_ion=SP[rname], receiver_charge=rq, transition=_tr_alt(tri))}
@@ -809,6 +998,9 @@ def run_beamcx(case, ctx):
                     w2 = want_at(idx) / conv * case["sib"]["scale"] * (HC / (lam2 * 1e-9))
                     ctx.close(_call(ctx, acc + ":grid-sibling", rs, pp) / w2, 1.0, acc + ":grid-sibling", rtol=1e-9,
                               info="(sibling key rq=%r tr=%r of the same provider; wavelength %r)" % (cs["rq"], cs["tr"], lam2))
+            if str(int(rate.donor_metastable)) == ms0:
+                interf.build()
+                interf.alternate(rate, pts, first, axes, None, _lowest, path, ad)
             r2 = again.get(int(rate.donor_metastable))
             ctx.check(r2 is not None, acc + ":second-object", lambda: "second call lacks metastable %r" % (rate.donor_metastable,))
             _repeat(ctx, acc, rate, r2, pts, first)
@@ -816,6 +1008,8 @@ def run_beamcx(case, ctx):
         ctx.nt(nt)
     finally:
         shutil.rmtree(path, ignore_errors=True)
+        for c in closers:
+            c.close()
 
 
 # ================================================================================================ wavelength accessor
@@ -823,6 +1017,7 @@ def run_wl(case, ctx):
     fl, name, q, tri = case["flags"], case["sp"], case["q"], case["tr"]
     ctx.label("cov:wavelength:%s:%s" % (_flag_label(fl), "present" if case.get("wl_el") is not None or case.get("wl_iso") is not None else "missing"))
     path = tempfile.mkdtemp(prefix="vf_c07_repo_")
+    closers = []
     try:
         wl = _wl_store(case, name, q, tri)
         for sib in case.get("siblings", []):       # other charge / other transition / other species: must not be picked up
@@ -855,9 +1050,28 @@ def run_wl(case, ctx):
                 got2 = ad.wavelength(ion=SP[name], charge=q, transition=_tr_alt(tri))      # keywords, other spelling, read twice
             ctx.check(float(got) == want, "wavelength:value", lambda: "wavelength(%s, %d, %r) = %r, stored %r (own %r)" % (name, q, _tr(tri), got, want, own))
             ctx.check(float(got2) == want, "wavelength:value", lambda: "second read wavelength(ion=%s, charge=%d, transition=%r) = %r, stored %r" % (name, q, _tr_alt(tri), got2, want))
+        if case.get("interf") and want is not None:
+            pathB = tempfile.mkdtemp(prefix="vf_c07_repoB_")
+            closers.append(_Closer(pathB))
+            wB = _WL()
+            for spx in (_elem(name), SP[name]):
+                if (_sym(spx), q, tri) in want_keys:
+                    wB.put(spx, q, tri, want_keys[(_sym(spx), q, tri)] + case["interf"])
+            wB.write(ctx, pathB)
+            adB = _ad(pathB, [fl[0], 1 - fl[1], fl[2]], 0)
+            with ctx.cut("wavelength:interference"):
+                gB = adB.wavelength(SP[name], q, _tr(tri))
+                gA = ad.wavelength(SP[name], q, _tr(tri))
+                gB2 = adB.wavelength(SP[name], q, _tr(tri))
+            ctx.check(float(gB) == wB.expect(name, q, tri, fl[2]) and float(gB2) == float(gB), "wavelength:interference",
+                      lambda: "provider B (other data_path): %r / %r, stored %r" % (gB, gB2, wB.expect(name, q, tri, fl[2])))
+            ctx.check(float(gA) == want, "wavelength:interference", lambda: "provider A after B was used: %r, stored %r" % (gA, want))
+            ctx.label("interference")
         ctx.nt(len(want_keys) > 0)
     finally:
         shutil.rmtree(path, ignore_errors=True)
+        for c in closers:
+            c.close()
 
 
 # ================================================================================================ missing data
@@ -975,6 +1189,7 @@ def run_missing(case, ctx):
     variant = case["variant"]
     ctx.label("acc:" + acc, "cov:%s:%s:missing" % (acc, _flag_label(fl)), "variant:" + variant, "req:" + ("isotope" if _is_iso(name) else "element"))
     path = tempfile.mkdtemp(prefix="vf_c07_repo_")
+    closers = []
     try:
         if variant == "default-path":
             # data_path omitted: the documented default repository (under the redirected, empty HOME) -> everything is missing
@@ -1018,12 +1233,40 @@ def run_missing(case, ctx):
             ctx.nt()
         battery = [list(b[:ARITY[acc]]) for b in case["battery"]]
         battery = battery + battery[:1]                      # the first point again at the end (same null object re-used)
+
+        def _present_elsewhere():
+            pathB = tempfile.mkdtemp(prefix="vf_c07_repoB_")
+            closers.append(_Closer(pathB))
+            _write_small(ctx, pathB, acc, el, q, tri, del_, dq, ms)
+            wB = _WL()
+            if acc == "beam_emission_pec":
+                wB.put(del_, 0, tri, 500.0)              # wavelength of the BEAM species
+            else:
+                wB.put(el, _wl_charge(acc, q), tri, 500.0)
+            wB.write(ctx, pathB)
+            adB = _ad(pathB, [fl[0], 1 - fl[1], 1], 0)
+            with ctx.cut(acc + ":interference:present-elsewhere"):
+                rB = _get_any(adB, acc, name, q, tri, donor_name, dq, ms, 0)
+                rB = rB[0] if isinstance(rB, list) else rB
+                small = _small(acc)
+                keys = ("ne", "te", "td")[:ARITY[acc]] if "ne" in small else (("e", "n", "t") if "e" in small else tuple(x for x, _ in BCX_AXES))
+                p0 = [small[k][0] for k in keys]
+                v = float(rB(*p0))
+            ctx.check(v > 0.0 and math.isfinite(v), acc + ":interference:present-elsewhere", lambda: "provider B has the key but returned %r at %r" % (v, p0))
+            ctx.label("interference")
+        interf = case.get("interf") if acc not in INHERITED and variant != "default-path" else None
+        if interf == "first":
+            _present_elsewhere()
         _expect_missing(ctx, acc + ":missing", getter, fl[1], battery, is_list=(acc == "beam_cx_pec"))
+        if interf == "after":
+            _present_elsewhere()
         _expect_missing(ctx, acc + ":missing-again", getter, fl[1], battery[:2], is_list=(acc == "beam_cx_pec"))   # provider asked twice
         if fl[1]:
             ctx.label("null:" + acc)
     finally:
         shutil.rmtree(path, ignore_errors=True)
+        for c in closers:
+            c.close()
 
 
 # ================================================================================================ dispatcher
@@ -1187,6 +1430,10 @@ def tab_case(draw, acc=None, flags=None, single=None):
         c["wl_el"], c["wl_iso"] = draw(_wl_pair(name))
     c["us"], c["fs"], c["bad"] = draw(_us(na)), draw(_fs(na)), draw(_bad(na))
     c["cf"], c["sib"], c["adform"] = draw(_cf(na)), draw(_sib(["q", "tr"])), draw(_adform)
+    if draw(st.integers(0, 2)) > 0:          # second object B: same accessor and key, other provider / table / grid sizes / flags
+        axB = [draw(_grid(rng[k][0], rng[k][1], 2, lim[k])) for k in range(na)]
+        c["B"] = {"axes": axB, "table": draw(_values([len(a) for a in axB], -25.0 if acc in PHOTON else -40.0, -8.0, 6.0)),
+                  "flags": [draw(st.integers(0, 1)), draw(st.integers(0, 1))], "first": draw(st.booleans())}
     return c
 
 
@@ -1223,6 +1470,11 @@ def beam_case(draw, acc=None, flags=None, single=None):
         c["wl_el"], c["wl_iso"] = draw(_wl_pair(c["beam"]))
     c["us"], c["fs"], c["bad"] = draw(_us(3)), draw(_fs(3)), draw(_bad(3))
     c["cf"], c["sib"], c["adform"] = draw(_cf(3)), draw(_sib(["q", "tr", "ms"])), draw(_adform)
+    if draw(st.integers(0, 2)) > 0:
+        gB = [draw(_grid(rng[k][0], rng[k][1], 2, (5, 5, 6)[k], hmin=0.3)) for k in range(3)]
+        c["B"] = {"e": gB[0], "n": gB[1], "t": gB[2], "sen": draw(_values([len(gB[0]), len(gB[1])], -20.0, -8.0, 5.0)),
+                  "st": draw(_values([len(gB[2])], -16.0, -12.0, 1.5)), "sref": draw(st.floats(1e-16, 1e-12)),
+                  "flags": [draw(st.integers(0, 1)), draw(st.integers(0, 1))], "first": draw(st.booleans())}
     return c
 
 
@@ -1257,6 +1509,8 @@ def beamcx_case(draw, flags=None, single=None):
     c["us"], c["fs"], c["bad"] = draw(_us(5)), draw(_fs(5)), draw(_bad(5))
     c["cf"], c["sib"], c["adform"] = draw(_cf(5)), draw(_sib(["q", "tr"])), draw(_adform)
     c["skip_beamcx_nonpos"] = bool(_open(F_BCXNP))
+    if draw(st.integers(0, 2)) > 0:
+        c["B"] = {"d": draw(_bcx_data(False)), "flags": [draw(st.integers(0, 1)), draw(st.integers(0, 1))], "first": draw(st.booleans())}
     return c
 
 
@@ -1269,6 +1523,7 @@ def wl_case(draw, flags=None):
     c["siblings"] = draw(st.lists(st.tuples(st.integers(0, 10), _trs, st.sampled_from(ELEMENTS + ISOTOPES), _lam).map(list), max_size=3))
     c["same_file"] = draw(st.lists(st.floats(1.0, 1.0e4), max_size=2))
     c["adform"] = draw(_adform)
+    c["interf"] = draw(st.one_of(st.none(), st.sampled_from([1.0, 0.25, 100.0])))
     return c
 
 
@@ -1291,6 +1546,7 @@ def missing_case(draw, acc=None, flags=None):
     c["dq"] = 0
     c["ms"] = draw(st.integers(1, 2))
     c["battery"] = draw(st.lists(st.lists(_arg, min_size=5, max_size=5), min_size=3, max_size=6))
+    c["interf"] = draw(st.sampled_from([None, "first", "after"]))
     return c
 
 
@@ -1335,6 +1591,10 @@ def matrix_cases(tier):
                     c.update(pts3)
                 if acc in PHOTON:
                     c.update(wlp)
+                axB = [[3e17, 3e18, 3e19, 3e20, 3e21], [0.3, 30.0]] + ([[2.0, 20.0, 200.0]] if acc == "thermal_cx_pec" else [])
+                tB = [[7e-12 * (1 + i) * (1 + 2 * j) for j in range(2)] for i in range(5)]
+                c["B"] = {"axes": axB, "table": [[[v, 2 * v, 5 * v] for v in row] for row in tB] if acc == "thermal_cx_pec" else tB,
+                          "flags": [1 - fl[0], fl[1]], "first": bool(n % 2)}
                 yield c
             e, nn, t = _hx([1e4, 5e4, 1e5], iso), _hx([1e19, 1e20, 1e21, 2e21], iso), _hx([0.5, 1.0, 100.0, 1000.0], iso)
             for acc in BEAM_ACC:
@@ -1345,6 +1605,8 @@ def matrix_cases(tier):
                 c.update(pts3)
                 if acc in PHOTON:
                     c.update(wlp)
+                c["B"] = {"e": [3e3, 3e4], "n": [3e18, 3e19], "t": [3.0, 30.0, 300.0, 3000.0, 6000.0], "sen": [[7e-12, 9e-12], [8e-12, 2e-11]],
+                          "st": [1e-14, 3e-14, 2e-14, 1.1e-14, 1.3e-14], "sref": 2e-14, "flags": [1 - fl[0], fl[1]], "first": bool(n % 2)}
                 yield c
             d = {"qref": 2e-15}
             for (x, q), lo in zip(BCX_AXES, (1e4, 100.0, 1e19, 1.0, 1.0)):
@@ -1357,9 +1619,14 @@ def matrix_cases(tier):
                  "decoy": 2.0 if iso else None, "wl_el": 529.05, "wl_iso": 529.0 if iso else None, "idx": [[0, 1, 2, 0, 1], [2, 2, 2, 2, 2], [3, 3, 3, 3, 3]],
                  "skip_beamcx_nonpos": bool(_open(F_BCXNP)), "sib": {"what": "tr" if iso else "q", "scale": 3.0}, "adform": n % 3}
             c.update(pts5)
+            dB = {"qref": 3e-14}
+            for (x, q), lo in zip(BCX_AXES, (3e3, 30.0, 3e18, 1.5, 0.5)):
+                dB[x] = [lo, 3 * lo]
+                dB[q] = [4e-14, 7e-14]
+            c["B"] = {"d": dB, "flags": [1 - fl[0], fl[1]], "first": bool(n % 2)}
             yield c
             yield {"k": "wl", "flags": fl, "sp": sp, "q": 0, "tr": 0, "wl_el": 656.28, "wl_iso": 656.10 if iso else None,
-                   "siblings": [[0, 1, "hydrogen", 486.1], [1, 0, "helium", 468.6]], "same_file": [434.0], "adform": n % 3}
+                   "siblings": [[0, 1, "hydrogen", 486.1], [1, 0, "helium", 468.6]], "same_file": [434.0], "adform": n % 3, "interf": 1.0}
             yield {"k": "wl", "flags": fl, "sp": sp, "q": 0, "tr": 0, "wl_el": None if not iso else 656.28, "wl_iso": None,
                    "siblings": [[0, 1, "hydrogen", 486.1]], "same_file": [434.0, 410.0], "adform": (n + 1) % 3}
             bat = [[1e19, 10.0, 1e19, 2.0, 2.0], [0.0, 0.0, 0.0, 0.0, 0.0], [-1.0, 5.0, 1e300, -1.0, 1e-300], [1e300] * 5, [1.0] * 5]
@@ -1371,7 +1638,7 @@ def matrix_cases(tier):
                 for variant in ("empty", "sibling") + (() if iso else ("default-path",)):
                     n += 1
                     yield {"k": "missing", "acc": acc, "flags": f2, "sp": sp, "q": 1, "tr": 0, "variant": variant, "donor": sp if acc not in TAB_ACC else "hydrogen",
-                           "dq": 0, "ms": 1, "battery": bat, "form": n % 2, "adform": n % 3}
+                           "dq": 0, "ms": 1, "battery": bat, "form": n % 2, "adform": n % 3, "interf": ["first", "after"][n % 2]}
     # ---- single-point axes the classes accept: every 1-D / constant branch of the beam classes and of BeamCXPEC
     for fl in ([0, 0, 0], [1, 0, 0]):
         for acc in BEAM_ACC:
